@@ -7,7 +7,9 @@ LEVEL = 'exploration'
 RULE = ('(a) every pattern of (buy|sell) x (smaller|equal|larger than the current net position) for k fills on one '
         'asset (6^k patterns; k=4 quick, k=6 thorough) with random prices (0.01-5000, 0-8 decimals), commissions '
         '(zero, flat, proportional), marks and - in one draw per pattern - real-valued (dyadic fractional) quantities, on a real Portfolio, identities checked after every prefix; (b) long '
-        'random multi-asset ladders; (c) random broker-level sequences with percentage fees. Oracle per position '
+        'random multi-asset ladders; (c) random broker-level sequences with percentage fees; (d) the Position class used directly, '
+        'the same object kept while it passes through exactly zero and trades on; 15% of the ladders use very large positions '
+        '(1e5-5e6 units) reduced to / flipped by a few units. Oracle per position '
         'epoch (reset when net returns to 0): exact sums of price x quantity and commission per side; total = market '
         'value - net cost - commissions; unrealised = (price - open-side average cost incl. its commission) x net; '
         'realised = total - unrealised; re-mark leaves realised P&L and quantity bit-identical. Non-trivial: an epoch '
@@ -29,12 +31,23 @@ def plan(tier, seed):
 def run_shard(spec, acc):
     if spec['kind'] == 'ladder':
         ladderwl.shard_ladders(spec, acc, PROP)
+        import random
+        from qsmon import core
+        rng = random.Random(spec['rng'] + 99)
+        for i in range(150 if spec['tier'] == 'quick' else 6000):
+            case = ladderwl.position_case(rng)
+            core.guarded(PROP, acc, case, ladderwl.run_position_case, case, acc)
+            acc.evaluations += 1
     else:
         brokerwl.shard_broker(spec, acc, PROP, 'benign')
 
 
 def replay(case, acc):
-    brokerwl.run_case(case, acc, PROP)
+    if case.get('kind') == 'position':
+        from qsmon import core
+        core.guarded(PROP, acc, case, ladderwl.run_position_case, case, acc)
+    else:
+        brokerwl.run_case(case, acc, PROP)
 
 
 def finish(acc, tier):
